@@ -40,7 +40,11 @@ WORDS_PAREN = ['(', ')', '[', ']', '{', '}', 'a(b)c', '-LRB-', '-RRB-',
 # are none of the documented punctuation tokens
 WORDS_LOOKALIKE = ['LRB', 'RRB', 'LSB', 'RSB', 'LCB', 'RCB', 'lrb', '-lrb-',
                    'COMMA', "'s", "''s", '--x', '....', '$,', '$(', ',,',
-                   '-LRB', 'LRB-']
+                   '-LRB', 'LRB-',
+                   # runs of punctuation characters that are no token of the
+                   # documented inventory; words that begin like one
+                   '?!', '.,', ':-', '-/', '!?', "'ll", "'90s", '[sic]',
+                   '.5', '-3']
 MORPHS = ['--', 'Nom.Sg.Masc', '3.Sg.Pres.Ind', 'Pos', 'Dat.Pl.Fem', '--']
 
 
@@ -415,6 +419,24 @@ SPICE = {
                               '0', '-1']),
     'word-unispace': ('word', WORDS_UNISPACE),
     'word-percent': ('word', ['%', '100%', '%d', '%s%s', '5%-Klausel']),
+    # second pass (seeded round 12)
+    # labels the label parser takes apart / that end in a digit
+    'cat-decorated': ('cat', ['NP-1', 'NP-SBJ-3', 'NP=2-1', 'WHNP-12', 'S=3']),
+    'cat-digit-last': ('cat', ['S1', 'VP2', 'X10']),
+    'cat-square-bracket': ('cat', ['NP[nom]', 'S{main}', 'X]']),
+    # tags that are keywords elsewhere
+    'pos-keyword': ('pos', ['--', 'EMPTY', 'None', '0', 'VROOT']),
+    # edge labels: leading hyphen, case variants of the NeGra head labels
+    'edge-odd': ('edge', ['-', '---', '-PAR', 'hd', 'Hd', 'nk', 'None',
+                          'A-B']),
+    # a token spelled exactly like its tag (PTB punctuation, UH)
+    'word-equals-tag': ('wordtag', None),
+    'word-bracket': ('word', ['(', ')', '[', ']', '{', 'f(x)', '-LRB-',
+                              '-RRB-', '(', ')']),
+    # strings equal to Python literals, in words and in morph / lemma
+    'word-python-literal': ('word', ['None', 'True', 'nan', 'null', '0.0',
+                                     '1e3', "''"]),
+    'morph-python-literal': ('morph', ['None', 'True', 'nan', '0']),
 }
 SPICE_USED = {}
 
@@ -450,6 +472,16 @@ def spice(rng, spec, classes, p=0.25, q=0.3, root_labels=None, sid0=False):
                 n['w'] = r.choice(items)
                 if n.get('lm') not in (None, '--'):
                     n['lm'] = n['w']
+                hit = True
+            elif kind == 'edge':
+                n['e'] = r.choice(items)
+                hit = True
+            elif kind == 'wordtag' and 'c' not in n:
+                n['w'] = n['p']
+                hit = True
+            elif kind == 'morph' and 'c' not in n:
+                n['m'] = r.choice(items)
+                n['lm'] = r.choice(items)
                 hit = True
         if hit:
             used = cls
